@@ -386,8 +386,9 @@ Section WithH.
         if (id =? powid_kawpow) || (id =? powid_sha_btc) || (id =? powid_sha_bch) then
           if negb (bytes_eqb seal cs) then Reject else after_commit
         else if id =? powid_scrypt then
-          (* common.Hash(AuxPow2()): slice-to-array conversion panics when the slice is shorter than 32 bytes *)
-          if (length (a_aux2 a) <? 32)%nat then Panic
+          (* len(AuxPow2()) < 32 is rejected with an error (fix commit f0c87e08; before it the slice-to-array
+             conversion common.Hash(AuxPow2()) panicked here: finding panic:auxpow-section:scrypt-auxpow2-shorter-than-32) *)
+          if (length (a_aux2 a) <? 32)%nat then Reject
           else let doge := firstn 32 (a_aux2 a) in
           if all_zero doge then Reject
           else if negb (bytes_eqb (aux_merkle_root doge seal) cs) then Reject
